@@ -26,6 +26,8 @@ TIERS = {
     'thorough': {'H': 50000, 'N': 70000, 'T': 30000},
 }
 ENGINE_OFFSET = {'H': 0, 'N': 10 ** 9, 'T': 2 * 10 ** 9}
+# engine S (stratified pre-emption sweep): boundaries tried per callable (0 = every boundary)
+SWEEP_CAP = {'quick': 6, 'thorough': 0}
 
 
 def _watchdog(seconds, what):
@@ -61,6 +63,29 @@ def _one(job):
     if r['violations'] or keep_sample or job[3] == 'plan':
         out['plan'] = r['plan']
     return out
+
+
+def _sweep_job(job):
+    from . import sweep
+    return sweep.run_pair(job)
+
+
+def run_sweep(seed, cap, workers=16, progress=True):
+    from .source import NAMES
+    jobs = [(seed, i, cap) for i in range(len(NAMES))]
+    # heaviest callables first so that the tail of the batch is short
+    calls = runner.BOOT.get('calls', {})
+    steps = runner.BOOT.get('steps', {})
+    jobs.sort(key=lambda j: -(calls.get(NAMES[j[1]], 0) if cap == 0 else 1) * steps.get(NAMES[j[1]], 1))
+    res = []
+    t0 = _perf()
+    with ProcessPoolExecutor(workers, mp_context=mp.get_context('fork'), initializer=_init_worker) as ex:
+        for k, r in enumerate(ex.map(_sweep_job, jobs, chunksize=1)):
+            res.append(r)
+            if progress and cap == 0 and (k + 1) % 50 == 0:
+                sys.stdout.write('  .. sweep %d/%d callables, %.0fs\n' % (k + 1, len(jobs), _perf() - t0))
+                sys.stdout.flush()
+    return res
 
 
 def run_batch(seed, counts, workers=16, progress=True, deep_every=0):
@@ -110,6 +135,8 @@ def report_violations(results, seed, tier, do_minimise=True, max_keys=8, max_rep
         for v in r.get('violations', ()):
             k = mz.vkey(v)
             if k not in groups:
+                if '_plan' in v:       # engine S: the plan travels with the violation
+                    r = dict(r, plan=v['_plan'], run_seed=v['_plan'].get('seed', 0))
                 groups[k] = (r, v, 0)
             g = groups[k]
             groups[k] = (g[0], g[1], g[2] + 1)
@@ -118,7 +145,7 @@ def report_violations(results, seed, tier, do_minimise=True, max_keys=8, max_rep
     rejs = collections.Counter()
     first = {}
     for r in results:
-        if 'harness_error' in r:
+        if 'harness_error' in r or r.get('engine') == 'S':
             continue
         calls.update(r['calls_by_name'])
         for sv in r['soft']:
@@ -209,7 +236,29 @@ def write_evidence(results, seed, tier, wall, nviol, extra=None):
     herr = 0
     byname = collections.Counter()
     cpu = 0.0
+    sweep = {'callables_swept': 0, 'runs': 0, 'callables_needing_a_pool_receiver_left_to_random_engines': 0,
+             'boundaries_of_swept_callables': 0, 'harness_errors': 0}
     for r in results:
+        if r.get('engine') == 'S':
+            if r['pair'] is None:
+                sweep['callables_needing_a_pool_receiver_left_to_random_engines'] += 1
+                continue
+            sweep['callables_swept'] += 1
+            sweep['runs'] += r['runs']
+            sweep['boundaries_of_swept_callables'] += r['pair'][2]
+            sweep['harness_errors'] += r['harness_errors']
+            tot.update(r['counters'])
+            digests.update(r['digests'])
+            nt.update(r['nt_digests'])
+            for k in r['sched_keys']:
+                sched.add(tuple(k))
+            for k in r['point_lines']:
+                plines.add(tuple(k))
+            steps += r['steps']
+            cpu += r['wall']
+            per_engine['S'] += r['runs']
+            byname.update(r['calls_by_name'])
+            continue
         if 'harness_error' in r:
             herr += 1
             continue
@@ -296,6 +345,7 @@ def write_evidence(results, seed, tier, wall, nviol, extra=None):
                      'caller application (seeded tasks)', 'thread scheduler (baton passing / nested pre-emption)'],
         },
         'cpu_seconds_in_runs': cpu,
+        'stratified_preemption_sweep': sweep,
     }
     if extra:
         cov.update(extra)
@@ -334,6 +384,8 @@ def cmd_batch(tier, argv):
     t0 = _perf()
     runner.boot()
     results = run_batch(seed, counts, deep_every=(4 if tier == 'thorough' else 0))
+    if '--no-sweep' not in argv and counts.get('N'):
+        results += run_sweep(seed, SWEEP_CAP[tier] if not any(a.startswith('--runs=') for a in argv) else 3)
     herr = [r for r in results if 'harness_error' in r]
     n_new, n_known, trouble = report_violations(results, seed, tier)
     extra = {}
